@@ -1,5 +1,278 @@
 import Driver.Util
+import KavaVerif.Model.Liquid
+/-!
+  C12 driver.  Three self-contained case kinds (TAB separated, produced by harness/cmd/c12):
+
+  c12.xfer  kind | pre: found tokens shares status minSelf jailed isOper delU delM redelU redelM ubdU ubdM nRedU
+            balU earnU balM supply | denomOk amount aux | "=>" result | post: found tokens shares status jailed
+            delU delM ubdU ubdM nRedU balU earnU balM supply
+            kind ∈ mint burn mintdep delmintdep wburn wburnundel delegate undelegate redelout redelin
+            (one validator's slice; U = the acting account, M = x/liquid's module account; "-" = no delegation)
+  c12.inv   why | per validator  found:tokens:shares:delM:supply:zeroShareDelegations  joined by ";"
+  c12.tally vals "tokens:shares:inTallySet:statusBonded;…" | votes "oper|opts|dels|wallet|savings|earn;…" | "=>" result yes abstain no veto totalBonded
+
+  (1) the Lean model is run on the observed pre-state and compared with the observed post-state (MISMATCH);
+  (2) the property predicates are evaluated on the implementation's own observation (PREDFAIL name tag).
+-/
 namespace Drv.C12
-/-- handlers of property C12: (command name, handler) -/
-def handlers : List (String × Handler) := []
+open KV KV.Liquid
+
+def optDec? (s : String) : Option (Option Dec) :=
+  let t := s.trimAscii.toString
+  if t == "-" || t == "" then some none else (int? t).map (fun i => some ⟨i⟩)
+
+def showOpt (o : Option Dec) : String := match o with | none => "-" | some d => toString d.m
+
+def statusOf (n : Nat) : Status := if n == 2 then .bonded else if n == 1 then .unbonding else .unbonded
+def statusNo (s : Status) : Nat := match s with | .bonded => 2 | .unbonding => 1 | .unbonded => 0
+
+/-- addresses of the slice: 0 = module account, 1 = the acting user, 2 = the user's earn deposit -/
+def aM : Nat := 0
+def aU : Nat := 1
+def aE : Nat := 2
+
+structure Slice where
+  found : Bool
+  tokens : Int
+  shares : Int
+  status : Nat
+  jailed : Bool
+  delU : Option Dec
+  delM : Option Dec
+  ubdU : Int
+  ubdM : Int
+  nRed : Int
+  balU : Int
+  earnU : Int
+  balM : Int
+  supply : Int
+
+def mkSt (p : Slice) (minSelf : Int) (isOper redelU redelM : Bool) : VSt :=
+  { val := if p.found then some { tokens := p.tokens, shares := ⟨p.shares⟩, status := statusOf p.status, minSelf := minSelf,
+                                   jailed := p.jailed, oper := if isOper then aU else 99 } else none,
+    del := fun a => if a = aU then p.delU else if a = aM then p.delM else none,
+    redel := fun a => if a = aU then redelU else if a = aM then redelM else false,
+    ubd := fun a => if a = aU then p.ubdU else if a = aM then p.ubdM else 0,
+    bal := fun a => if a = aU then p.balU else if a = aE then p.earnU else if a = aM then p.balM else 0,
+    supply := p.supply }
+
+def isRouter (kind : String) : Bool := kind == "mintdep" || kind == "delmintdep" || kind == "wburn" || kind == "wburnundel"
+
+def cmpSt (kind : String) (c : VSt) (q : Slice) : String :=
+  let vf := c.val.isSome
+  let v := c.val.getD default
+  allOk [
+    expectEq "val.found" (showBool vf) (showBool q.found),
+    if vf then expectEq "val.tokens" (toString v.tokens) (toString q.tokens) else "ok",
+    if vf then expectEq "val.shares" (toString v.shares.m) (toString q.shares) else "ok",
+    if vf then expectEq "val.status" (toString (statusNo v.status)) (toString q.status) else "ok",
+    if vf then expectEq "val.jailed" (showBool v.jailed) (showBool q.jailed) else "ok",
+    expectEq "delU" (showOpt (c.del aU)) (showOpt q.delU),
+    expectEq "delM" (showOpt (c.del aM)) (showOpt q.delM),
+    expectEq "ubdU" (toString (c.ubd aU)) (toString q.ubdU),
+    expectEq "ubdM" (toString (c.ubd aM)) (toString q.ubdM),
+    expectEq "balU" (toString (c.bal aU)) (toString q.balU),
+    -- the value of an earn position is x/earn's share arithmetic (dust rule, orphaned units): C11's subject, not compared
+    (if isRouter kind then "ok" else expectEq "earnU" (toString (c.bal aE)) (toString q.earnU)),
+    expectEq "balM" (toString (c.bal aM)) (toString q.balM),
+    expectEq "supply" (toString (c.supply)) (toString q.supply)]
+
+/-- model result as (class, post state) -/
+def runKind (kind : String) (c : VSt) (denomOk : Bool) (amount : Int) (aux : Bool) : String × VSt :=
+  let fin {α : Type} (r : Res (VSt × α)) : String × VSt :=
+    match r with | .ok (c', _) => ("ok", c') | .err => ("err", c) | .panic => ("panic", c)
+  let fin0 (r : Res VSt) : String × VSt :=
+    match r with | .ok c' => ("ok", c') | .err => ("err", c) | .panic => ("panic", c)
+  match kind with
+  | "mint" => fin (mint cfg aM c aU denomOk amount)
+  | "burn" => fin (burn cfg aM c aU amount)
+  | "mintdep" => fin0 (mintDeposit cfg aM aE c aU denomOk amount)
+  | "delmintdep" => fin0 (delegateMintDeposit cfg aM aE c aU denomOk amount)
+  | "wburn" => fin (withdrawBurn cfg aM aE c aU denomOk amount aux)
+  | "wburnundel" => fin0 (withdrawBurnUndelegate cfg aM aE c aU denomOk amount aux)
+  | "delegate" => fin0 (stkDelegate c aU amount)
+  | "undelegate" => fin0 (stkUndelegate c aU amount)
+  | "redelout" => fin (stkRedelegateOut c aU amount)
+  | "redelin" => fin0 (stkRedelegateIn c aU amount aux)
+  | _ => ("bad", c)
+
+def dm (o : Option Dec) : Int := match o with | some d => d.m | none => 0
+
+/-- supply·10^18 − module shares (positive = the derivative is not backed) -/
+def deficit (supply : Int) (delM : Option Dec) : Int := supply * P - dm delM
+
+def isConversion (kind : String) : Bool := kind == "mint" || kind == "burn" || kind == "mintdep" || kind == "wburn"
+def isMintLike (kind : String) : Bool := kind == "mint" || kind == "mintdep" || kind == "delmintdep"
+def isBurnLike (kind : String) : Bool := kind == "burn" || kind == "wburn" || kind == "wburnundel"
+
+/-- `isBelowMinSelfDelegation` evaluated on observed numbers -/
+def belowMin (tokens shares minSelf : Int) (sh : Int) : Bool :=
+  ({ tokens := tokens, shares := ⟨shares⟩, status := .bonded, minSelf := minSelf, jailed := false, oper := 0 } : Val).belowMinSelf ⟨sh⟩
+
+/-- the property predicates on one observed slice transition -/
+def xferPreds (kind : String) (p q : Slice) (minSelf : Int) (isOper redelU redelM : Bool) (amount : Int) (result : String) : String :=
+  if result == "panic" then predfail "C12_no_panic" kind
+  else if result == "err" then
+    -- "so every holder can always redeem"
+    if kind == "burn" && amount > 0 && p.balU ≥ amount && p.found && !redelM && dm p.delM < amount * P then
+      predfail "C12_redeemable" "module-delegation-short"
+    else "ok"
+  else
+  let defPre := deficit p.supply p.delM
+  let defPost := deficit q.supply q.delM
+  -- guards
+  if (isMintLike kind && kind != "delmintdep" && redelU) || (isBurnLike kind && redelM) then predfail "C12_guards" "incoming-redelegation-accepted"
+  else if kind == "mint" && isOper && p.shares > 0 && belowMin p.tokens p.shares minSelf (dm q.delU) then
+    predfail "C12_guards" "self-delegation-below-minimum-accepted"
+  -- bonded tokens / status untouched by a conversion
+  else if isConversion kind && !q.found then predfail "C12_bonded_tokens_unchanged" "validator-removed"
+  else if isConversion kind && q.tokens != p.tokens then predfail "C12_bonded_tokens_unchanged" "tokens-changed"
+  else if isConversion kind && (q.status != p.status || q.jailed != p.jailed) then predfail "C12_bonded_tokens_unchanged" "status-changed"
+  -- no unbonding period
+  else if isConversion kind && (q.ubdU != p.ubdU || q.ubdM != p.ubdM) then predfail "C12_no_unbonding_entry" "unbonding-delegation"
+  else if isConversion kind && q.nRed != p.nRed then predfail "C12_no_unbonding_entry" "redelegation"
+  -- the stake moves between the user and the module
+  else if (kind == "mint" || kind == "mintdep") && !(dm q.delU < dm p.delU && dm q.delM ≥ dm p.delM) then predfail "C12_moves_stake" "mint-direction"
+  else if kind == "mint" && q.supply - p.supply != (q.balU + q.earnU) - (p.balU + p.earnU) then predfail "C12_moves_stake" "minted-not-received"
+  else if (kind == "burn" || kind == "wburn") && !(dm q.delM == dm p.delM - (p.supply - q.supply) * P && dm q.delU ≥ dm p.delU) then predfail "C12_moves_stake" "burn-direction"
+  else if kind == "burn" && p.supply - q.supply != (p.balU + p.earnU) - (q.balU + q.earnU) then predfail "C12_moves_stake" "burnt-not-paid"
+  -- no empty delegation (newly created by this operation)
+  else if (q.delU == some ⟨0⟩ && p.delU != some ⟨0⟩) || (q.delM == some ⟨0⟩ && p.delM != some ⟨0⟩) then
+    if (isBurnLike kind && dm q.delU == dm p.delU) || (isMintLike kind && dm q.delM == dm p.delM) then
+      predfail "C12_no_empty_delegation" "transfer-worth-zero-tokens"
+    else predfail "C12_no_empty_delegation" "other"
+  else
+  -- value of the user's stake (delegation + derivative, at the validator's rate) within two base units
+  let valuePred : String :=
+    if (kind == "mint" || kind == "burn") && p.shares > 0 && q.shares > 0 then
+      let h := dm p.delU + (p.balU + p.earnU) * P
+      let h' := dm q.delU + (q.balU + q.earnU) * P
+      let lhs := h' * q.tokens * p.shares - h * p.tokens * q.shares
+      let bound := 2 * p.shares * q.shares
+      if lhs > bound then predfail "C12_value_within_two_units" (if isMintLike kind then "gain-mint" else "gain-burn")
+      else if -lhs > bound then predfail "C12_value_within_two_units" (if isMintLike kind then "loss-mint" else "loss-burn")
+      else "ok"
+    else "ok"
+  if valuePred != "ok" then valuePred
+  -- backing (deficit created or increased by this operation)
+  else if defPost > 0 && defPost > (if defPre > 0 then defPre else 0) then
+    if isMintLike kind && p.tokens * P != p.shares then predfail "C12_backed" "mint-rate-not-one"
+    else predfail "C12_backed" s!"new-deficit-{kind}"
+  -- states that were already outside the invariant before this operation
+  else if q.delU == some ⟨0⟩ || q.delM == some ⟨0⟩ then predfail "C12_no_empty_delegation" "persisting"
+  else if defPost > 0 then predfail "C12_backed" "persisting"
+  else "ok"
+
+def handleXfer : Handler := fun l =>
+  if l.length != 38 then badInput "arity" else
+  let a := l.toArray
+  let g (i : Nat) : String := a.getD i ""
+  let kind := g 0
+  let result := g 23
+  let pre? : Option (Slice × Int × Bool × Bool × Bool) :=
+    match bool? (g 1), int? (g 2), int? (g 3), nat? (g 4), int? (g 5), bool? (g 6), bool? (g 7), optDec? (g 8), optDec? (g 9) with
+    | some found, some tokens, some shares, some status, some minSelf, some jailed, some isOper, some delU, some delM =>
+      match bool? (g 10), bool? (g 11), int? (g 12), int? (g 13), int? (g 14), int? (g 15), int? (g 16), int? (g 17), int? (g 18) with
+      | some redelU, some redelM, some ubdU, some ubdM, some nRedU, some balU, some earnU, some balM, some supply =>
+        some (⟨found, tokens, shares, status, jailed, delU, delM, ubdU, ubdM, nRedU, balU, earnU, balM, supply⟩, minSelf, isOper, redelU, redelM)
+      | _, _, _, _, _, _, _, _, _ => none
+    | _, _, _, _, _, _, _, _, _ => none
+  let post? : Option Slice :=
+    match bool? (g 24), int? (g 25), int? (g 26), nat? (g 27), bool? (g 28), optDec? (g 29), optDec? (g 30) with
+    | some found', some tokens', some shares', some status', some jailed', some delU', some delM' =>
+      match int? (g 31), int? (g 32), int? (g 33), int? (g 34), int? (g 35), int? (g 36), int? (g 37) with
+      | some ubdU', some ubdM', some nRedU', some balU', some earnU', some balM', some supply' =>
+        some ⟨found', tokens', shares', status', jailed', delU', delM', ubdU', ubdM', nRedU', balU', earnU', balM', supply'⟩
+      | _, _, _, _, _, _, _ => none
+    | _, _, _, _, _, _, _ => none
+  match pre?, post?, bool? (g 19), int? (g 20), bool? (g 21) with
+  | some (p, minSelf, isOper, redelU, redelM), some q, some denomOk, some amount, some aux =>
+    let c := mkSt p minSelf isOper redelU redelM
+    let (cls, c') := runKind kind c denomOk amount aux
+    if cls == "bad" then badInput "kind"
+    else if cls != result then mismatch "result" cls result
+    else
+      let cmp := if result == "ok" then cmpSt kind c' q else "ok"
+      if cmp != "ok" then cmp
+      else xferPreds kind p q minSelf isOper redelU redelM amount result
+  | _, _, _, _, _ => badInput "parse"
+
+/-- backing and empty-delegation predicates on all validators after an event that is not a conversion -/
+def handleInv : Handler
+  | [why, vals] =>
+    let go (acc : String) (s : String) : String :=
+      if acc != "ok" then acc else
+      match s.splitOn ":" with
+      | [_, tokens, shares, delM, supply, zero] =>
+        match int? tokens, int? shares, optDec? delM, int? supply, int? zero with
+        | some tokens, some shares, some delM, some supply, some zero =>
+          if zero > 0 then predfail "C12_no_empty_delegation" "persisting"
+          else if deficit supply delM > 0 then predfail "C12_backed" s!"persisting-after-{why}"
+          else "ok"
+        | _, _, _, _, _ => badInput "inv-parse"
+      | _ => badInput "inv-arity"
+    (strs vals ";").foldl go "ok"
+  | _ => badInput "arity"
+
+def pair? (s : String) : Option (Nat × Int) :=
+  match s.splitOn ":" with
+  | [a, b] => match nat? a, int? b with | some a, some b => some (a, b) | _, _ => none
+  | _ => none
+
+def pairs? (s : String) : Option (List (Nat × Int)) := (strs s).mapM pair?
+
+/-- validator entry `tokens:shares:inTallySet:statusBonded` -/
+def tval? (s : String) : Option (TVal × Bool) :=
+  match s.splitOn ":" with
+  | [t, sh, b, sb] => match int? t, int? sh, bool? b, bool? sb with
+    | some t, some sh, some b, some sb => some ({ tokens := t, shares := ⟨sh⟩, bonded := b }, sb)
+    | _, _, _, _ => none
+  | _ => none
+
+def tvote? (s : String) : Option TVote :=
+  match s.splitOn "|" with
+  | [oper, opts, dels, wallet, sav, earn] =>
+    let op : Option (Option Nat) := if oper.trimAscii.toString == "-" then some none else (nat? oper).map some
+    match op, pairs? opts, pairs? dels, pairs? wallet, pairs? sav, pairs? earn with
+    | some op, some opts, some dels, some wallet, some sav, some earn =>
+      some { oper := op, opts := opts.map (fun (o, w) => (o, (⟨w⟩ : Dec))), dels := dels.map (fun (v, sh) => (v, (⟨sh⟩ : Dec))),
+             wallet := wallet, savings := sav, earn := earn }
+    | _, _, _, _, _, _ => none
+  | _ => none
+
+def handleTally : Handler
+  | [vals, votes, _, result, yes, abstain, no, veto, totalBonded] =>
+    match (strs vals ";").mapM tval?, (strs votes ";").mapM tvote?, int? yes, int? abstain, int? no, int? veto, int? totalBonded with
+    | some valsB, some votes, some yes, some abstain, some no, some veto, some totalBonded =>
+      let vals := valsB.map (·.1)
+      -- Σ tokens of the validators with status Bonded (the handler's set may be smaller: jailed in this block)
+      let statusBondedTotal := valsB.foldl (fun acc (tv, sb) => if sb then acc + tv.tokens else acc) (0 : Int)
+      match tally cfg vals votes with
+      | none => if result == "panic" then predfail "C12_no_panic" "tally" else mismatch "result" "panic" result
+      | some o =>
+        if result != "ok" then mismatch "result" "ok" result
+        else
+          let cmp := allOk [expectEq "yes" (toString o.yes) (toString yes), expectEq "abstain" (toString o.abstain) (toString abstain),
+                            expectEq "no" (toString o.no) (toString no), expectEq "veto" (toString o.veto) (toString veto),
+                            -- monitored assumption: TotalBondedTokens = Σ tokens of bonded validators
+                            expectEq "totalBonded" (toString statusBondedTotal) (toString totalBonded)]
+          if cmp != "ok" then cmp
+          else
+            let bkUnbonded := votes.any fun t => (addrBkava vals.length t).any fun (v, a) => a > 0 && !inMap vals v
+            let counted := yes + abstain + no + veto
+            if counted > totalBonded then
+              predfail "C12_tally_le_bonded" (if bkUnbonded then "derivative-of-unbonded-validator" else "other")
+            else
+              -- "only while its validator is bonded": the result must equal the tally in which such derivatives carry nothing
+              match tally { cfg with tallySkipUnbonded := true } vals votes with
+              | some f =>
+                if f.yes != yes || f.abstain != abstain || f.no != no || f.veto != veto then
+                  predfail "C12_tally_only_bonded" "derivative-of-unbonded-validator"
+                else "ok"
+              | none => "ok"
+    | _, _, _, _, _, _, _ => badInput "parse"
+  | _ => badInput "arity"
+
+def handlers : List (String × Handler) :=
+  [("c12.xfer", handleXfer), ("c12.inv", handleInv), ("c12.tally", handleTally)]
 end Drv.C12
